@@ -43,6 +43,30 @@ def main(tier, seed):
     outs = parallel([job(i, p) for i, p in enumerate(profs)], nproc=5)
     for prof, f in zip(profs, outs):
         files += split_file(f, 3, d, prof)
+    # 3. the Collect action bound to the real collector: heap snapshots at the start of collections (root categories +
+    #    object graph) and one event per freed object, validated by TLC: nothing reachable is freed, all garbage is freed
+    hfiles = []
+
+    def hjob(i, prof):
+        def go():
+            f = os.path.join(d, "heap-%s.ndjson" % prof)
+            drive_trace(["heap-drive", "--profile", prof, "--seed", seed * 100 + 50 + i, "--n", n, "--collections", 10 if not thorough else 30],
+                        f, n, timeout=1800)
+            return f
+        return go
+    hfiles = parallel([hjob(i, p) for i, p in enumerate(["alloc", "closures", "std", "host"])], nproc=4)
+    ncoll = sum(1 for f in hfiles for l in open(f) if '"Snapshot"' in l)
+    nfree = sum(1 for f in hfiles for l in open(f) if '"Free"' in l)
+    run.notes["collections_with_snapshot"] = ncoll
+    run.notes["objects_freed_in_them"] = nfree
+    if ncoll < 50:
+        raise ToolError("too few collections recorded: %d" % ncoll)
+    validate_traces(run, "VmHeapTrace.tla", {}, ["Safe"], hfiles, "heap-trace", timeout=2400,
+                    site_of=lambda m: str(m.get("why")))
+    for v in run.viol:
+        if v["kind"] == "trace-rejected" and "why" in v["detail"]:
+            v["kind"] = "collector-" + ("freed-reachable-object" if "still reach" in v["detail"]["why"] else
+                                        "left-garbage" if "survived" in v["detail"]["why"] else "protocol")
     note_program_stats(run, files)
     sched = {}
     for tf in files:
